@@ -1,11 +1,12 @@
 from common import COMMON_TRUST
-from wt_common import WT_LEAN, WT_TRUST, wt_engine
+from wt_common import WT_LEAN, WT_TRUST, wt_engine, e2e_engine, E2E_TRUST
 
 PROP = {
     "generated": [],
     "lean_modules": WT_LEAN + ["SwimVerif.Proofs.UplinkFlow", "SwimVerif.Proofs.SupplyFifo",
                                "SwimVerif.Model.CommandOutput", "SwimVerif.Proofs.CommandOutput"],
     "engines": [
+        e2e_engine("C14"),
         wt_engine("C14"),
         {"name": "cmd", "crate": "core", "bin": "sv-cmd", "machine": "cmd",
          "cases": {"quick": 4000, "thorough": 400000}, "min_shard": 1000},
@@ -20,7 +21,7 @@ PROP = {
                   "and the real CommandOutput (cmd engine) by differential execution.",
     "level_note": "Command lanes' handler invocation (read task feed/flush discipline) and the SupplyLane queue inside "
                   "the agent are covered by the end-to-end rig where present, not by a theorem.",
-    "trusted_base": COMMON_TRUST + WT_TRUST + [
+    "trusted_base": COMMON_TRUST + WT_TRUST + E2E_TRUST + [
         "modelled, not verified: RawRequestMessageEncoder (a record is (target, command)), byte channel of the output"],
     "assumptions": ["the supply lane stays linked to the remote in the exactly-once theorem"],
 }
